@@ -1,6 +1,7 @@
 """C07 — amplitude burst labels follow the dual-threshold rule (pipeline model, reference detector mask)."""
 from harness import pipeline
-from harness.pipeline import COQ_HEADER, COQ_RUNNER, COQ_TYPES, SHARD, coq_case, kind_of, extra_evidence, TRUST
+from harness.pipeline import extra_evidence, TRUST
+from harness.props import c07_tables as T
 
 PROP = 'C07'
 PROPS_FILE = 'Props/C07.v'
@@ -14,7 +15,16 @@ RULE = ('compute_features(burst_method="amp") on generated signals (sparse / bur
         'min_burst_duration; the model receives the two RAW counts and resolves them itself. non-trivial = >= 3 rows and '
         'a label of each value; for the routing stream in addition: another plausible count (the other dictionary\'s '
         'value, the default 3) would change the reference detector mask or the labels')
-ASSUMPTIONS = ['signals finite']
+RULE = RULE + '. Table stream (kind table_amp, 700 quick / 7000 thorough): ' + T.RULE
+ASSUMPTIONS = ['signals finite',
+               'table stream: NaN fractions, thresholds outside [0,1] / NaN, negative counts, empty tables and the dtype of the '
+               'label column are compared with the model only (outside the statement)']
+COQ_STREAMS = {'pipe': (pipeline.COQ_HEADER, pipeline.COQ_RUNNER, pipeline.COQ_TYPES, pipeline.SHARD),
+               T.STREAM: T.COQ_STREAM}
+
+
+def stream_of(c):
+    return T.STREAM if T.mine(c) else 'pipe'
 
 
 def cases(rng, tier):
@@ -22,17 +32,35 @@ def cases(rng, tier):
     kinds = ['sparse', 'sparse', 'sparse', 'bursty', 'bursty', 'sum', 'sine', 'zeroed', 'noise', 'scaled', 'dc', 'chirp', 'quant']
     out = [pipeline.gen_case(rng, tier, methods=('amp',), kinds=kinds, fek_prob=0.4, amp_wide=True) for _ in range(n)]
     out += [pipeline.gen_routing_case(rng, tier) for _ in range(60 if tier == 'quick' else 600)]
+    out.extend(T.cases(rng, tier))
     return out
 
 
-run_impl = pipeline.run_pipe
+def run_impl(c):
+    return T.run_impl(c) if T.mine(c) else pipeline.run_pipe(c)
 
 
 def oracle(c, o):
-    return pipeline.oracle_labels_amp(c, o)
+    return T.oracle(c, o) if T.mine(c) else pipeline.oracle_labels_amp(c, o)
+
+
+def kind_of(c, o):
+    return T.kind_of(c, o) if T.mine(c) else pipeline.kind_of(c, o)
+
+
+def coq_case(c, o):
+    return T.coq_case(c, o) if T.mine(c) else pipeline.coq_case(c, o)
+
+
+def shrink(c):
+    if T.mine(c):
+        return T.shrink(c)
+    return pipeline.shrink(c) if hasattr(pipeline, 'shrink') else []
 
 
 def nontrivial(c, o):
+    if T.mine(c):
+        return T.nontrivial(c, o)
     if not pipeline.nontrivial_table(c, o, need_labels=True):
         return False
     if c.get('routing'):
